@@ -43,6 +43,13 @@ FAULTS = {
 EXC_KINDS = ['RuntimeError', 'RuntimeError', 'VfCallbackError',
              'StopIteration', 'AssertionError', 'OSError']
 CB_DEAD, STALLED = 'callback-thread-dead', 'stalled-sender'
+# a client of the HTTPS port that has not even started the TLS handshake
+# (blocks the accept loop of a server that shakes hands inside accept())
+STALLED_TLS = 'stalled-tls-handshake'
+
+
+def tls_silent(st):
+    return st['tls'] and st['kind'] == 'no-bytes'
 
 META = dict(
     id='C16',
@@ -264,10 +271,14 @@ def hang_classes(cfg):
     if any(cb['raise_kind'] in lk.BASE_KINDS and cb['raise_p']
            for cb in cfg['callbacks']):
         out.add(CB_DEAD)
-    if any(st['hold'] == 'through-stop' and
-           (st['kind'] != 'half-closed' or st['tls'])   # no half-close in TLS
-           for w in cfg['waves'] for st in w['stalls']):
-        out.add(STALLED)
+    for w in cfg['waves']:
+        for st in w['stalls']:
+            if st['hold'] != 'through-stop':
+                continue
+            if tls_silent(st):
+                out.add(STALLED_TLS)
+            elif st['kind'] != 'half-closed' or st['tls']:
+                out.add(STALLED)            # (there is no half-close in TLS)
     return out
 
 
@@ -280,7 +291,8 @@ def degrade(cfg, cls):
     else:
         for w in cfg['waves']:
             for st in w['stalls']:
-                st['hold'] = 'complete-before-stop'
+                if tls_silent(st) == (cls == STALLED_TLS):
+                    st['hold'] = 'complete-before-stop'
 
 
 def behaviour_of(cfg):
@@ -599,6 +611,7 @@ def judge(ctx, cfg, run, detail, partial=False):
     base_raised = {}         # wave -> kinds of BaseException raised
     wave_of = {}
     tls_ids = set()
+    start_ret = {}
     for t, k, kw in ev:
         if k == 'send':
             sends[kw['id']] = (t, kw['wave'], kw['sender'])
@@ -641,6 +654,8 @@ def judge(ctx, cfg, run, detail, partial=False):
             stop_exc[kw['wave']] = kw['exc']
         elif k == 'start-exc':
             start_exc[kw['wave']] = kw
+        elif k == 'start-ret':
+            start_ret[kw['wave']] = t
         elif k == 'post-stop':
             post[kw['wave']] = kw
 
@@ -758,16 +773,23 @@ def judge(ctx, cfg, run, detail, partial=False):
             if iid in tls_ids:
                 ctx.count('tls-indication-acked')
             if any(n == 0 for n in n_per_cb):
-                if w in start_exc:
+                fw = w
+                if w not in start_exc and w - 1 in start_exc and \
+                        w - 1 not in stop_call and \
+                        r[0] < start_ret.get(w, r[0] + 1):
+                    # sent by a sender that was knocking before this start():
+                    # answered by what the failed start() before had left
+                    fw = w - 1
+                if fw in start_exc:
                     V('delivery.lost.after-failed-start',
                       'start() had raised %s (%s), yet indication '
                       '%s sent afterwards was acknowledged with a success '
                       'response by a listener port that was left serving; '
                       'callback deliveries were %s' % (
-                          type(start_exc[w]['exc']).__name__,
-                          'provoked by %s' % start_exc[w]['provoked']
-                          if start_exc[w].get('provoked') else
-                          short(str(start_exc[w]['exc']), 80),
+                          type(start_exc[fw]['exc']).__name__,
+                          'provoked by %s' % start_exc[fw]['provoked']
+                          if start_exc[fw].get('provoked') else
+                          short(str(start_exc[fw]['exc']), 80),
                           iid, n_per_cb), detail)
                 elif w in cb_dead or (partial and w in base_raised):
                     V('delivery.lost.callback-thread-dead',
@@ -891,7 +913,14 @@ def run_case(ctx, i, rng):
                 run.log.add('stop-hang', wave=run.wave, cb_alive=cb_now)
                 if '_stop_listener_threads' in wf.in_funcs and \
                         any(st.connected for st in run.stalls):
-                    mech = STALLED
+                    # waiting for the accept loop of the HTTPS server to
+                    # end, or for request handler threads?
+                    at = wf.in_lines[wf.in_funcs.index(
+                        '_stop_listener_threads')]
+                    mech = STALLED_TLS if '_https_server.shutdown()' in at \
+                        and any(st.tls and st.kind == 'no-bytes'
+                                for st in run.stalls if st.connected) \
+                        else STALLED
                 elif '_stop_indication_delivery' in wf.in_funcs and \
                         not cb_now:
                     mech = CB_DEAD
@@ -937,8 +966,8 @@ def run_case(ctx, i, rng):
             ph = phases.pop()
             mech = mechs.pop() if len(mechs) == 1 and \
                 all(m for _, _, m in hangs) else None
-            if mech == STALLED:
-                key = 'stop.hangs.stalled-sender'
+            if mech in (STALLED, STALLED_TLS):
+                key = 'stop.hangs.' + mech
                 why = 'sender(s) %s had connected, stalled and were still ' \
                     'connected' % sorted(set(
                         '%s%s' % (st['kind'], '/tls' if st['tls'] else '')
